@@ -1,7 +1,7 @@
 SPECIFICATION SLSpec
 CONSTANTS
   Entries <- D_Entries
-  Shapes <- D_ShapesCore
+  Shapes <- D_ShapesMin
   Bounds <- D_Bounds
   MaxLen = 3
   Dev <- DevIdeal
